@@ -1024,7 +1024,7 @@ struct Digit {
                     zeros = SizeT(number_length - fraction_length);
                 } else {
                     const SizeT rem    = (index - started_at);
-                    const SizeT needed = SizeT(number_length - calculated_digits);
+                    const SizeT needed = SizeT(fraction_length);
 
                     if (rem > needed) {
                         zeros = (rem - needed);
@@ -1106,7 +1106,7 @@ struct Digit {
                         zeros = SizeT(number_length - fraction_length);
                     } else {
                         const SizeT rem    = (index - started_at);
-                        const SizeT needed = SizeT(number_length - calculated_digits);
+                        const SizeT needed = SizeT(fraction_length);
 
                         if (rem > needed) {
                             zeros = (rem - needed);
